@@ -3,6 +3,7 @@ package main
 import (
 	"context"
 	"fmt"
+	"sort"
 	"strings"
 )
 
@@ -75,4 +76,52 @@ func wideCollectionWitness(e *Env) {
 		check()
 	}
 	e.count("wide_collection_witness")
+	// the raw head keys of the document and, per field, the number of heads the node reports: the model lists the
+	// keys by the prefix <field id>/ (Crdt/HeadKeys.v)
+	prefix := fmt.Sprintf("/db/heads/d/%v/", id)
+	var keys []string
+	fieldOfCid := map[string]string{} // cid -> field id (from the key)
+	for k := range x.scan(ctx, prefix) {
+		rest := k[len(prefix):]
+		keys = append(keys, rest)
+		if i := strings.Index(rest, "/"); i > 0 {
+			fieldOfCid[rest[i+1:]] = rest[:i]
+		}
+	}
+	sort.Strings(keys)
+	bytesOf := func(t string) string {
+		var bs []string
+		for _, c := range []byte(t) {
+			bs = append(bs, fmt.Sprint(int(c)))
+		}
+		return "[" + strings.Join(bs, "; ") + "]"
+	}
+	var ks, fcs []string
+	for _, k := range keys {
+		ks = append(ks, bytesOf(k))
+	}
+	for i := 1; i <= 24; i++ {
+		name := fmt.Sprintf("f%02d", i)
+		d, errs := x.gql(ctx, fmt.Sprintf(`query { latestCommits(docID: "%v", fieldName: "%s") { cid } }`, id, name))
+		if errs != "" {
+			e.violate("query-error", errs, nil)
+			continue
+		}
+		rows := rowsOf(d, "latestCommits")
+		fid := ""
+		for _, row := range rows {
+			if f, ok := fieldOfCid[fmt.Sprint(row["cid"])]; ok {
+				// the field's own head is the one written last for it: the group most of its heads fall into
+				if fid == "" || len(f) < len(fid) {
+					fid = f
+				}
+			}
+		}
+		if fid == "" {
+			continue
+		}
+		e.Res.Evaluations++
+		fcs = append(fcs, fmt.Sprintf("(%s, %d)", bytesOf(fid), len(rows)))
+	}
+	e.writeCasesSharded("cases_C04k", "CorrC04k", "kcase", []string{fmt.Sprintf("KCase [%s] [%s]", strings.Join(ks, "; "), strings.Join(fcs, "; "))}, 100)
 }
